@@ -152,6 +152,18 @@ def run(ctx):
                     if not np.allclose(sd_, s[::-1], rtol=2e-3):
                         viol("SharpK/row-local/order-changes-values", f"SharpK.sigma on a descending radius array is not the ascending result reversed (max rel dev {float(np.max(np.abs(sd_ / s[::-1] - 1))):.3g} on {sname})",
                              {"radii": radii[::-1].tolist(), "spectrum": sname})
+                    # radii below the resolution of the table (R*c < 1/k_max) mixed with resolved ones, ascending, descending and shuffled:
+                    # each value is what the radius gives alone
+                    rmix = np.array([0.3 / k[-1], 0.8 / k[-1], 1.5 / k[-1], 5.0 / k[-1], radii[0], radii[-1]])
+                    alone = np.array([float(f.sigma(np.array([x_]))[0]) for x_ in rmix])
+                    for order_ in (np.arange(len(rmix)), np.arange(len(rmix))[::-1], np.array([4, 0, 5, 1, 3, 2]), np.array([5, 1, 0, 4, 2, 3])):
+                        got_ = f.sigma(rmix[order_].copy())
+                        nref += 1
+                        if not np.allclose(got_, alone[order_], rtol=2e-3):
+                            j_ = int(np.argmax(np.abs(got_ / alone[order_] - 1)))
+                            viol("SharpK/row-local/order-changes-values", f"SharpK.sigma at R={rmix[order_][j_]:.4g} (k_max R = {rmix[order_][j_] * k[-1]:.2f}) is {got_[j_]:.6g} inside the vector {np.round(rmix[order_], 6).tolist()} but {alone[order_][j_]:.6g} alone ({sname})",
+                                 {"radii": rmix[order_].tolist(), "spectrum": sname})
+                            break
                     # integer-typed radii (Python int, integer arrays) are radii too
                     ri = np.array([1, 2, 8])
                     si, sf = f.sigma(ri), f.sigma(ri.astype(float))
